@@ -6,6 +6,7 @@ package main
 // faulting value; otherwise report a violation.
 
 import (
+	"regexp"
 	"fmt"
 	"go/token"
 	"go/types"
@@ -1341,9 +1342,15 @@ var reviewedExceptions = []exceptionEntry{
 		reason: "the argument is a substring returned by FindAllStringIndex of the same regexp, so the match succeeds with all groups"},
 }
 
+var nameInKey = regexp.MustCompile(`\b(var|param|freevar)\([^()]*\)`)
+
+// stableConstruct removes local variable and parameter names from a construct key, so that renaming them
+// neither detaches nor attaches a reviewed exception.
+func stableConstruct(s string) string { return nameInKey.ReplaceAllString(s, "$1(_)") }
+
 func reviewedException(rule, fn, construct string) (string, bool) {
 	for _, x := range reviewedExceptions {
-		if x.rule == rule && x.fn == fn && strings.HasPrefix(construct, x.constructPrefix) {
+		if x.rule == rule && x.fn == fn && strings.HasPrefix(stableConstruct(construct), stableConstruct(x.constructPrefix)) {
 			if x.premise != nil {
 				key := x.rule + x.fn + x.constructPrefix
 				res, done := premiseMemo[key]
